@@ -72,7 +72,7 @@ pub fn outputs_with(f: &GForest, v: &Variant, repeat: &[(u16, u16)]) -> Result<V
         }
     }
     if v.churn > 0 {
-        let all: Vec<rbx_types::Ref> = built.dom.descendants().map(|i| i.referent()).collect();
+        let all: Vec<rbx_types::Ref> = built.refs.clone(); // (a DOM without a root has no descendants() to walk)
         for r in all {
             let inst = built.dom.get_by_ref_mut(r).unwrap();
             for k in 0..v.churn {
@@ -115,7 +115,7 @@ pub fn det_profile_multi(max_nodes: usize) -> forest::ForestProfile {
 
 pub fn variant_strategy() -> BoxedStrategy<Variant> {
     (
-        prop_oneof![Just(BuildMode::Builder), Just(BuildMode::InsertEach), Just(BuildMode::InsertThenMove)],
+        prop_oneof![Just(BuildMode::Builder), Just(BuildMode::InsertEach), Just(BuildMode::InsertThenMove), Just(BuildMode::Rootless)],
         proptest::collection::vec(any::<u32>(), 0..6),
         prop_oneof![3 => Just(0u8), 2 => 1u8..40],
     )
